@@ -150,7 +150,11 @@ func buildReference(rep *Report, s Setup, g *Gen, dir string, from, to uint32, b
 	ref.Total = len(ref.Stmts)
 	clean, _ := DumpDB(filepath.Join(ldir, "sql.db.v4"))
 	if diff := FirstDiff(clean, ref.Dumps[int64(to)]); diff != "" {
-		rep.Violate("replay:differs", "a second process replaying the same chain produced a different ledger: "+diff, "")
+		sig := "replay:ledger-differs"
+		if strings.Contains(diff, fmt.Sprintf("%061d", 0)) && (strings.Contains(diff, fmt.Sprintf("%064d", 144)) || strings.Contains(diff, fmt.Sprintf("%064d", 288))) {
+			sig = "replay:staking-tie-order"
+		}
+		rep.Violate(sig, "a second process replaying the same chain produced a different ledger: "+diff, "")
 	}
 	os.RemoveAll(ldir)
 	return ref, true
